@@ -547,7 +547,7 @@ Lemma push_plain : forall tok fr, nosepb tok = true -> push_tok tok fr = (tok_cl
 Proof. intros tok fr H. unfold push_tok. rewrite split_plain by assumption. reflexivity. Qed.
 
 Lemma ks_back : forall ks, wf_keyspace ks = true ->
-  match tok_cls ks with CInt d => Some d | k => drv_cass false k end = Some ks.
+  match tok_cls ks with CInt d => Some d | _ => drv_cass false (tok_cls ks) end = Some ks.
 Proof.
   intros ks H. unfold wf_keyspace in H. apply andb_true_iff in H. destruct H as [H H3].
   apply andb_true_iff in H. destruct H as [H1 H2].
@@ -573,7 +573,7 @@ Lemma registry_heads : forallb (fun kv : str * kind => match fst kv with k0 :: _
 Proof. vm_compute. reflexivity. Qed.
 
 Lemma hexname_back : forall n, wf_name n = true ->
-  match tok_cls (hex_of n) with CInt d => Some d | u => cassname_of u end = Some (hex_of n).
+  match tok_cls (hex_of n) with CInt d => Some d | _ => cassname_of (tok_cls (hex_of n)) end = Some (hex_of n).
 Proof.
   intros n H. destruct n as [|c0 n]; [discriminate|].
   unfold wf_name in H. apply andb_true_iff in H. destruct H as [H1 H2]. apply N.leb_le in H1.
@@ -600,4 +600,207 @@ Lemma field_names_hex : forall fn, forallb (forallb (fun c => code c <? 128)%N) 
 Proof.
   induction fn as [|f fn IH]; simpl; auto. intros H. apply andb_true_iff in H. destruct H as [H1 H2].
   rewrite name_from_hex_of by assumption. rewrite IH by assumption. reflexivity.
+Qed.
+
+(* ------------------------------------------------------------------ the class a printed descriptor parses to *)
+Fixpoint parsed (t : ty) : cls :=
+  match t with
+  | TSimple s => CReg (marshal_simple s)
+  | TList a => CApp (lit "ListType") [parsed a] [None]
+  | TSet a => CApp (lit "SetType") [parsed a] [None]
+  | TMap k v => CApp (lit "MapType") [parsed k; parsed v] [None; None]
+  | TTuple ts => CApp (lit "TupleType") (map parsed ts) (map (fun _ => None) ts)
+  | TUdt ks name fn ft => CUdt ks name fn (map parsed ft)
+  | TVector a d => CVec (lit "VectorType(" ++ d ++ lit ")") (parsed a) (CInt d)
+  | TFrozen a => CApp (lit "FrozenType") [parsed a] [None]
+  | TReversed a => CApp (lit "ReversedType") [parsed a] [None]
+  end.
+
+Lemma opt_all_some : forall {A B} (f : A -> option B) l, Forall (fun x => exists v, f x = Some v) l -> exists r, opt_all (map f l) = Some r.
+Proof.
+  intros A B f l H. induction H as [|x l [v Hv] Hl [r Hr]]; simpl.
+  - eexists. reflexivity.
+  - rewrite Hv, Hr. eexists. reflexivity.
+Qed.
+
+Lemma go_some : forall fl n subs, (exists r, opt_all (map (drv_cass fl) subs) = Some r) ->
+  exists s, match subs with
+            | [] => Some n
+            | _ => match opt_all (map (drv_cass fl) subs) with Some l => Some (n ++ lit "(" ++ join comma_sp l ++ lit ")") | None => None end
+            end = Some s.
+Proof. intros fl n subs [r Hr]. destruct subs; [eexists; reflexivity|]. rewrite Hr. eexists. reflexivity. Qed.
+
+Lemma parsed_cass : forall t, exists s, drv_cass false (parsed t) = Some s.
+Proof.
+  apply ty_ind2; intros; cbn [parsed drv_cass andb]; try (eexists; reflexivity).
+  - destruct H as [s Hs]. simpl. rewrite Hs. eexists. reflexivity.
+  - destruct H as [s Hs]. simpl. rewrite Hs. eexists. reflexivity.
+  - destruct H as [s Hs]. destruct H0 as [s0 Hs0]. simpl. rewrite Hs, Hs0. eexists. reflexivity.
+  - apply go_some. apply opt_all_some. apply Forall_forall. intros x Hx. apply in_map_iff in Hx. destruct Hx as [y [Hy Hin]].
+    subst. rewrite Forall_forall in H. apply H. assumption.
+  - apply go_some. apply opt_all_some. apply Forall_forall. intros x Hx. apply in_map_iff in Hx. destruct Hx as [y [Hy Hin]].
+    subst. rewrite Forall_forall in H. apply H. assumption.
+  - destruct H as [s Hs]. simpl. rewrite Hs. eexists. reflexivity.
+  - destruct H as [s Hs]. simpl. rewrite Hs. eexists. reflexivity.
+Qed.
+
+Lemma parsed_all_cass : forall ts, exists r, opt_all (map (drv_cass false) (map parsed ts)) = Some r.
+Proof.
+  intros ts. apply opt_all_some. apply Forall_forall. intros x Hx. apply in_map_iff in Hx. destruct Hx as [y [Hy _]].
+  subst. apply parsed_cass.
+Qed.
+
+Lemma apply_default_reg : forall n tn ar subs names, assoc n registry = Some (KDefault tn ar) ->
+  apply_params (CReg n) subs names = default_apply n ar (CApp n) subs names.
+Proof. intros. unfold apply_params. rewrite H. reflexivity. Qed.
+
+Lemma default_ok : forall n ar mk subs names,
+  match ar with Some k => Nat.eqb (List.length subs) k | None => true end = true ->
+  (exists r, opt_all (map (drv_cass false) subs) = Some r) ->
+  default_apply n ar mk subs names = POk (mk subs names).
+Proof. intros n ar mk subs names Ha [r Hr]. unfold default_apply. rewrite Ha, Hr. reflexivity. Qed.
+
+Lemma udt_apply_ok : forall k u fts names ks h name fns,
+  match k with CInt d => Some d | _ => drv_cass false k end = Some ks ->
+  match u with CInt d => Some d | _ => cassname_of u end = Some h ->
+  name_from_hex h = Some name -> field_names (skipn 2 names) = POk fns ->
+  udt_apply (k :: u :: fts) names = POk (CUdt ks name fns fts).
+Proof. intros k u fts names ks h name fns H H0 H1 H2. unfold udt_apply. rewrite H, H0, H1, H2. reflexivity. Qed.
+
+Lemma parsed_not_int : forall t, is_int (parsed t) = false.
+Proof. destruct t; reflexivity. Qed.
+
+Definition run_ok (t : ty) : Prop :=
+  wf t = true -> forall nm rest fr st, name_ok nm ->
+  run (toks t (pre_of nm) ++ rest) (fr :: st) = run rest ((parsed t :: fst fr, nm :: snd fr) :: st).
+
+Lemma head_ok_simple : forall s, head_ok (marshal_simple s).
+Proof. destruct s; repeat split; reflexivity. Qed.
+
+(* a parameterised type: head, "(", body, ")" *)
+Lemma run_param : forall n body rest fr st nm rs rn c,
+  name_ok nm -> head_ok n ->
+  (forall rest', run (body ++ rest') (([], []) :: (CReg n :: fst fr, nm :: snd fr) :: st)
+                 = run rest' ((rs, rn) :: (CReg n :: fst fr, nm :: snd fr) :: st)) ->
+  apply_params (CReg n) (rev rs) (rev rn) = POk c ->
+  run (((pre_of nm ++ prefix ++ n) :: LP :: body ++ [RP]) ++ rest) (fr :: st) = run rest ((c :: fst fr, nm :: snd fr) :: st).
+Proof.
+  intros n body rest fr st nm rs rn c Hn Hh Hbody Happ.
+  change (((pre_of nm ++ prefix ++ n) :: LP :: body ++ [RP]) ++ rest)
+    with ((pre_of nm ++ prefix ++ n) :: LP :: (body ++ [RP]) ++ rest).
+  rewrite run_word by apply head_word_tok. rewrite push_head by assumption.
+  rewrite run_open. rewrite <- app_assoc. rewrite Hbody.
+  change ([RP] ++ rest) with (RP :: rest). rewrite run_close. rewrite Happ. reflexivity.
+Qed.
+
+Lemma run_unary : forall n a tn, head_ok (lit n) -> assoc (lit n) registry = Some (KDefault tn (Some 1%nat)) ->
+  run_ok a -> wf a = true -> forall nm rest fr st, name_ok nm ->
+  run (((pre_of nm ++ full n) :: LP :: toks a [] ++ [RP]) ++ rest) (fr :: st)
+  = run rest ((CApp (lit n) [parsed a] [None] :: fst fr, nm :: snd fr) :: st).
+Proof.
+  intros n a tn Hh Ha IH Hwf nm rest fr st Hn.
+  apply run_param with (rs := [parsed a]) (rn := [None]); auto.
+  - intros rest'. apply (IH Hwf None rest' ([], [])). exact I.
+  - simpl rev. rewrite (apply_default_reg _ _ _ _ _ Ha). apply default_ok; [reflexivity|].
+    destruct (parsed_cass a) as [s Hs]. simpl. rewrite Hs. eexists. reflexivity.
+Qed.
+
+Lemma run_seq : forall ts, Forall run_ok ts -> forallb wf ts = true -> forall rest at_ an st,
+  run (flat_map (fun x => toks x []) ts ++ rest) ((at_, an) :: st)
+  = run rest ((rev (map parsed ts) ++ at_, rev (map (fun _ => @None str) ts) ++ an) :: st).
+Proof.
+  intros ts H. induction H as [|x l Hx Hl IH]; intros Hwf rest at_ an st.
+  - reflexivity.
+  - simpl in Hwf. apply andb_true_iff in Hwf. destruct Hwf as [Hwx Hwl].
+    cbn [flat_map map rev]. rewrite <- app_assoc.
+    rewrite (Hx Hwx None _ (at_, an) st I). cbn [fst snd].
+    rewrite IH by assumption. rewrite <- !app_assoc. reflexivity.
+Qed.
+
+Lemma run_fields : forall ft, Forall run_ok ft -> forallb wf ft = true -> forall fn rest at_ an st,
+  List.length fn = List.length ft ->
+  run (udt_toks fn (map toks ft) ++ rest) ((at_, an) :: st)
+  = run rest ((rev (map parsed ft) ++ at_, rev (map (fun f => Some (hex_of f)) fn) ++ an) :: st).
+Proof.
+  intros ft H. induction H as [|x l Hx Hl IH]; intros Hwf fn rest at_ an st Hlen.
+  - destruct fn; [reflexivity|discriminate].
+  - destruct fn as [|f fn]; [discriminate|]. simpl in Hlen. inversion Hlen as [Hlen'].
+    simpl in Hwf. apply andb_true_iff in Hwf. destruct Hwf as [Hwx Hwl].
+    cbn [map udt_toks rev]. rewrite <- app_assoc.
+    rewrite (Hx Hwx (Some (hex_of f)) _ (at_, an) st (hex_of_lhex f)). cbn [fst snd].
+    rewrite IH by assumption. rewrite <- !app_assoc. reflexivity.
+Qed.
+
+Lemma run_ty : forall t, run_ok t.
+Proof.
+  apply ty_ind2; unfold run_ok.
+  - (* simple *) intros s _ nm rest fr st Hn. cbn [toks app].
+    rewrite run_word by apply head_word_tok. rewrite push_head; auto using head_ok_simple.
+  - intros a IH Hwf nm rest fr st Hn. cbn [toks parsed]. eapply run_unary; eauto; try (repeat split; reflexivity).
+  - intros a IH Hwf nm rest fr st Hn. cbn [toks parsed]. eapply run_unary; eauto; try (repeat split; reflexivity).
+  - (* map *) intros k v IHk IHv Hwf nm rest fr st Hn. cbn [toks parsed].
+    simpl in Hwf. apply andb_true_iff in Hwf. destruct Hwf as [Hk Hv].
+    rewrite (app_assoc (toks k [])).
+    apply run_param with (rs := [parsed v; parsed k]) (rn := [None; None]); auto; try (repeat split; reflexivity).
+    + intros rest'. rewrite <- app_assoc. rewrite (IHk Hk None _ ([], []) _ I). cbn [fst snd].
+      rewrite (IHv Hv None _ _ _ I). reflexivity.
+    + simpl rev. rewrite (apply_default_reg _ (lit "map") (Some 2%nat)) by reflexivity. apply default_ok; [reflexivity|].
+      destruct (parsed_cass k) as [s Hs]. destruct (parsed_cass v) as [s0 Hs0]. simpl. rewrite Hs, Hs0. eexists. reflexivity.
+  - (* tuple *) intros ts IH Hwf nm rest fr st Hn. cbn [toks parsed]. simpl in Hwf.
+    apply run_param with (rs := rev (map parsed ts)) (rn := rev (map (fun _ => @None str) ts)); auto; try (repeat split; reflexivity).
+    + intros rest'. rewrite run_seq by assumption. rewrite !app_nil_r. reflexivity.
+    + rewrite !rev_involutive. rewrite (apply_default_reg _ (lit "tuple") None) by reflexivity. apply default_ok; [reflexivity|].
+      apply parsed_all_cass.
+  - (* udt *) intros ks n fn ft IH Hwf nm rest fr st Hn. cbn [toks parsed].
+    apply wf_udt_inv in Hwf. destruct Hwf as (Hks & Hname & Hfn & Hlen & Hft).
+    destruct (wf_keyspace_word _ Hks) as [Hkw Hkn].
+    change (ks :: hex_of n :: udt_toks fn (map toks ft) ++ [RP]) with ((ks :: hex_of n :: udt_toks fn (map toks ft)) ++ [RP]).
+    apply run_param with (rs := rev (map parsed ft) ++ [tok_cls (hex_of n); tok_cls ks])
+                         (rn := rev (map (fun f => Some (hex_of f)) fn) ++ [None; None]); auto; try (repeat split; reflexivity).
+    + intros rest'. cbn [app].
+      rewrite run_word by (apply word_word_tok; assumption).
+      rewrite push_plain.
+      2:{ unfold wf_keyspace in Hks. apply andb_true_iff in Hks. destruct Hks as [Hks _]. apply andb_true_iff in Hks. destruct Hks as [_ Hks].
+          unfold nosepb. eapply forallb_impl; [apply alnum_nosepc|assumption]. }
+      cbn [fst snd].
+      rewrite run_word.
+      2:{ apply word_word_tok; [apply lhex_is_word; apply hex_of_lhex|apply hex_nonempty; eapply wf_name_nonempty; eauto]. }
+      rewrite push_plain.
+      2:{ unfold nosepb. eapply forallb_impl; [apply lhex_nosepc|apply hex_of_lhex]. }
+      cbn [fst snd].
+      apply run_fields; auto. apply Nat.eqb_eq. assumption.
+    + rewrite !rev_app_distr, !rev_involutive. cbn [rev app].
+      change (apply_params (CReg (lit "UserType")) (tok_cls ks :: tok_cls (hex_of n) :: map parsed ft)
+                (None :: None :: map (fun f => Some (hex_of f)) fn))
+        with (udt_apply (tok_cls ks :: tok_cls (hex_of n) :: map parsed ft) (None :: None :: map (fun f => Some (hex_of f)) fn)).
+      apply udt_apply_ok with (h := hex_of n).
+      * apply ks_back. assumption.
+      * apply hexname_back. assumption.
+      * apply name_from_hex_of. unfold wf_name in Hname. destruct n; [discriminate|]. apply andb_true_iff in Hname. destruct Hname. assumption.
+      * cbn [skipn]. apply field_names_hex. assumption.
+  - (* vector *) intros a d IH Hwf nm rest fr st Hn. cbn [toks parsed].
+    simpl in Hwf. apply andb_true_iff in Hwf. destruct Hwf as [Ha Hd].
+    destruct (wf_dim_word _ Hd) as [Hdw Hdn].
+    change (toks a [] ++ [d; RP]) with (toks a [] ++ [d] ++ [RP]). rewrite (app_assoc (toks a [])).
+    apply run_param with (rs := [CInt d; parsed a]) (rn := [None; None]); auto; try (repeat split; reflexivity).
+    + intros rest'. rewrite <- app_assoc. rewrite (IH Ha None _ ([], []) _ I). cbn [fst snd app].
+      rewrite run_word by (apply word_word_tok; assumption).
+      rewrite push_plain.
+      2:{ unfold wf_dim in Hd. apply andb_true_iff in Hd. destruct Hd as [Hd _]. apply andb_true_iff in Hd. destruct Hd as [_ Hd].
+          unfold nosepb. eapply forallb_impl; [apply alnum_nosepc|apply digit_alnum; assumption]. }
+      unfold tok_cls. rewrite (int_parse_dim _ Hd). reflexivity.
+    + simpl rev. change (apply_params (CReg (lit "VectorType")) [parsed a; CInt d] [None; None])
+        with (vector_apply (lit "VectorType") [parsed a; CInt d]).
+      unfold vector_apply. rewrite parsed_not_int. reflexivity.
+  - intros a IH Hwf nm rest fr st Hn. cbn [toks parsed]. simpl in Hwf. apply andb_true_iff in Hwf. destruct Hwf.
+    eapply run_unary; eauto; try (repeat split; reflexivity).
+  - intros a IH Hwf nm rest fr st Hn. cbn [toks parsed]. eapply run_unary; eauto; try (repeat split; reflexivity).
+Qed.
+
+Theorem cass_parse_spec : forall t, wf t = true -> cass_parse (spec_cass_print t) = POk (parsed t).
+Proof.
+  intros t Hwf. unfold cass_parse.
+  pose proof (lex_ty t Hwf [] [] [] I eq_refl) as HL. rewrite !app_nil_r in HL. rewrite HL.
+  pose proof (run_ty t Hwf None [] ([], []) [] I) as HR. change (pre_of None) with (@nil ascii) in HR.
+  rewrite (app_nil_r (toks t [])) in HR. etransitivity; [exact HR|reflexivity].
 Qed.
